@@ -117,6 +117,10 @@ def run(c, facts, tier):
                         if pm and mm and pm.group(1) == "port" and mm.group(1) == "mutex":
                             pi, mi = pm.group(2).strip("{}"), mm.group(2).strip("{}")
                             ok = pi.endswith(".port") and mi.endswith(".mutex") and pi[: -len(".port")] == mi[: -len(".mutex")]
+                            if not ok:
+                                # the record was allocated on this very path: OpenPort{mutex: M, port: P} stored as the port record
+                                recs = re.findall(r"OpenPort\{mutex:([^,{}]*),port:([^,{}]*)\}", " ".join(e for e in p.row["effects"] if e.startswith(("set ", "insert "))))
+                                ok = (mi, pi) in recs
                             det += " — port and mutex come from the same port record: %s" % ok
                     c.ob("C16.delegation", "%s::%s" % (plain, meth), "plain printer = make-printer over one (port, mutex) record [%s]" % (p.cond or "")[:40], ok, det)
                 # the record itself pairs names allocated together
